@@ -314,13 +314,15 @@ func (g *G) serDoc() M {
 	}
 	if es := asList(nl["edges"]); len(es) > 0 && g.Chance(0.3) {
 		e := es[g.Int(len(es))].(M)
+		// an identifier that names nothing: short, and of many bytes in few characters
+		ghost := g.Pick([]string{"ghost", "ghost", strings.Repeat("é", 40), strings.Repeat("漢", 25), strings.Repeat("g", 70)})
 		switch g.Int(4) {
 		case 0:
 			e["ty"] = float64(g.Pick2([]int{-1, -44, 45, 9999}))
 		case 1:
-			e["tos"] = append(asList(e["tos"]), "ghost")
+			e["tos"] = append(asList(e["tos"]), ghost)
 		case 2:
-			e["src"] = "ghost"
+			e["src"] = ghost
 		case 3:
 			e["tos"] = []any{}
 		}
@@ -329,7 +331,10 @@ func (g *G) serDoc() M {
 		nl["roots"] = []any{}
 	}
 	if g.Chance(0.1) {
-		nl["roots"] = append(asList(nl["roots"]), "ghost-root")
+		nl["roots"] = append(asList(nl["roots"]), g.Pick([]string{"ghost-root", strings.Repeat("ü", 45)}))
+	}
+	if g.Chance(0.05) {
+		nl["roots"] = []any{g.Pick([]string{strings.Repeat("漢", 30), strings.Repeat("é", 33)})}
 	}
 	if meta, ok := d["meta"].(M); ok && g.Chance(0.3) {
 		meta["tools"] = []any{M{"n": "t", "v": "1"}, M{"n": "u"}}
